@@ -145,6 +145,20 @@ void run_case(uint64_t idx, Rng& r) {
   };
   pool.push_back(make());
   observe(pool[0], "construction");
+  if (r.chance(0.35)) {
+    // a second live sketch with a different configuration: assignment has to transfer every field
+    Model m2 = m;
+    m2.p = ps[r.below(8)]; m2.rf = static_cast<int>(r.below(4));
+    if (r.coin()) m2.lg_k = static_cast<uint8_t>(r.range(5, 9));
+    if (r.coin()) m2.seed = r.next();
+    m2.theta0 = model_theta0(m2.p);
+    Live L2; L2.m = m2;
+    L2.sk.reset(new update_theta_sketch(update_theta_sketch::builder().set_lg_k(m2.lg_k).set_resize_factor(static_cast<resize_factor>(m2.rf))
+      .set_p(m2.p).set_seed(m2.seed).build()));
+    pool.push_back(std::move(L2));
+    count("second_config_in_pool");
+    observe(pool[1], "construction");
+  }
   // how often to do the (expensive) full observation
   const uint64_t obs_every = nops <= 200 ? 1 : (nops <= 5000 ? 1 + r.below(40) : 1 + r.below(nops / 20 + 1));
   std::string sample_ops;
@@ -169,24 +183,34 @@ void run_case(uint64_t idx, Rng& r) {
     } else if (op < 970) {
       const uint32_t before = L.sk->get_num_retained();
       L.sk->trim(); what = "trim"; count("trim");
-      if (before > k) count("trim_effective");
-      VF_CHECK(L.sk->get_num_retained() <= k, "trim|more-than-k-after-trim", "retained=" + std::to_string(L.sk->get_num_retained()));
+      const uint64_t kl = 1ULL << L.m.lg_k;
+      if (before > kl) count("trim_effective");
+      VF_CHECK(L.sk->get_num_retained() <= kl, "trim|more-than-k-after-trim", "retained=" + std::to_string(L.sk->get_num_retained()));
       observe(L, what);
     } else if (op < 975) {
       L.sk->reset(); what = "reset"; count("reset");
       L.m.seen.clear(); L.m.nonempty = false; L.m.last_valid = false;
       observe(L, what);
-    } else if (op < 985) {
+    } else if (op < 982) {
       // copy construct: equal and independent
       if (pool.size() < 3) {
         Live C; C.m = L.m; C.sk.reset(new update_theta_sketch(*L.sk));
         pool.push_back(std::move(C)); what = "copy-ctor"; count("copy");
         observe(pool.back(), what);
       }
-    } else if (op < 992) {
+    } else if (op < 991) {
       if (pool.size() >= 2) {
         size_t a = r.below(pool.size()), b = r.below(pool.size());
-        if (a != b) { *pool[a].sk = *pool[b].sk; pool[a].m = pool[b].m; count("copy_assign"); observe(pool[a], "copy-assign"); observe(pool[b], "copy-assign-source"); }
+        if (a != b) {
+          *pool[a].sk = *pool[b].sk; pool[a].m = pool[b].m; count("copy_assign"); observe(pool[a], "copy-assign"); observe(pool[b], "copy-assign-source");
+          if (pool[a].m.p != m.p || pool[b].m.p != m.p) count("copy_assign_across_configs");
+          if (r.coin()) {   // the assignee must behave like its source from now on, also after a reset
+            pool[a].sk->reset(); pool[a].m.seen.clear(); pool[a].m.nonempty = false; pool[a].m.last_valid = false; count("reset_after_assign");
+            observe(pool[a], "reset-after-copy-assign");
+            for (int j = 0; j < 40; ++j) { Val v = gen_val(r, domain, fixed_kind); apply_update(*pool[a].sk, v); if (!v.ignored()) { pool[a].m.seen.insert(v.ref_hash(pool[a].m.seed).h1 >> 1); pool[a].m.nonempty = true; } }
+            observe(pool[a], "updates-after-reset-after-copy-assign");
+          }
+        }
       }
     } else {
       if (pool.size() >= 2) {
@@ -194,6 +218,12 @@ void run_case(uint64_t idx, Rng& r) {
         if (a != b) {
           *pool[a].sk = std::move(*pool[b].sk); pool[a].m = pool[b].m; count("move_assign");
           observe(pool[a], "move-assign");
+          if (r.coin()) {
+            pool[a].sk->reset(); pool[a].m.seen.clear(); pool[a].m.nonempty = false; pool[a].m.last_valid = false; count("reset_after_assign");
+            observe(pool[a], "reset-after-move-assign");
+            for (int j = 0; j < 40; ++j) { Val v = gen_val(r, domain, fixed_kind); apply_update(*pool[a].sk, v); if (!v.ignored()) { pool[a].m.seen.insert(v.ref_hash(pool[a].m.seed).h1 >> 1); pool[a].m.nonempty = true; } }
+            observe(pool[a], "updates-after-reset-after-move-assign");
+          }
           pool.erase(pool.begin() + b);   // moved-from must be destructible
           pool_changed = true;
         }
